@@ -99,6 +99,11 @@ typedef struct {
 } shared_page_t;
 extern shared_page_t *sim_shared;
 void sim_shared_init(void);
+/* the mapping is SIM_SHARED_BYTES long: page 0 = control block (cleared before every forked run), the rest is an
+ * engine-defined area that survives across runs (counters, visited-state bitmaps written by children) */
+#define SIM_SHARED_BYTES (512 * 1024)
+#define SIM_SHARED_EXT ((unsigned char *)sim_shared + 4096)
+#define SIM_SHARED_EXT_BYTES (SIM_SHARED_BYTES - 4096)
 extern void (*m4sim_on_abort)(void);
 
 /* ---------- simulated file system + clock (DESIGN 2.8) ---------- */
